@@ -129,6 +129,10 @@ pub struct World {
     pub parks: Vec<(usize, usize)>,
     /// index of the task poll (set by the executor loop) in which each park happened
     pub park_polls: Vec<usize>,
+    /// readiness of the transport's `poll_flush`, cyclic: true = not ready once (with a wake-up);
+    /// empty = always ready
+    pub flush_script: Vec<bool>,
+    pub flush_pendings: usize,
     pub cur_poll: usize,
 }
 
@@ -145,6 +149,8 @@ impl World {
             transport_events: 0, saw_read_pending: false, saw_write_pending: false, short_reads: 0, short_writes: 0,
             parks: Vec::new(),
             park_polls: Vec::new(),
+            flush_script: Vec::new(),
+            flush_pendings: 0,
             cur_poll: 0,
         };
         w.peer_update();
@@ -377,8 +383,16 @@ impl AsyncWrite for MockWriter {
         }
     }
 
-    fn poll_flush(self: Pin<&mut Self>, _cx: &mut Context<'_>) -> Poll<io::Result<()>> {
-        self.0.lock().unwrap().flush_calls += 1;
+    fn poll_flush(self: Pin<&mut Self>, cx: &mut Context<'_>) -> Poll<io::Result<()>> {
+        let mut w = self.0.lock().unwrap();
+        let call = w.flush_calls;
+        w.flush_calls += 1;
+        if !w.flush_script.is_empty() && w.flush_script[call % w.flush_script.len()] {
+            w.flush_pendings += 1;
+            w.transport_events += 1;
+            cx.waker().wake_by_ref();
+            return Poll::Pending;
+        }
         Poll::Ready(Ok(()))
     }
 
